@@ -171,7 +171,8 @@ def run(chk):
             oks = pat.any_of(small.body[0], ["if %s in smallprimes:\n    return True\nelse:\n    return False" % n, "if %s not in smallprimes:\n    return False\nelse:\n    return True" % n,
                                             "return %s in smallprimes" % n]) is not None
         if not oks and len(small.body) == 2:
-            oks = pat.match("if %s in smallprimes:\n    return True" % n, small.body[0]) is not None and norm_text(small.body[1]) == "return False"
+            oks = pat.match("if %s in smallprimes:\n    return True" % n, small.body[0]) is not None and norm_text(small.body[1]) == "return False" or \
+                pat.match("if %s not in smallprimes:\n    return False" % n, small.body[0]) is not None and norm_text(small.body[1]) == "return True"
     chk.ob("R16.2", "is_prime: n <= max(table) answered by `n in smallprimes`", oks, loc=f.qname, key="C16|R16.2|small", detail="the small-n branch is not membership in the prime table")
     pre = [s for s in body if isinstance(s, ast.If) and "gcd(" in norm_text(s.test)]
     okp = len(pre) == 1 and len(pre[0].body) == 1 and norm_text(pre[0].body[0]) == "return False" and norm_text(pre[0].test).endswith("!= 1") and not pre[0].orelse
